@@ -88,7 +88,7 @@ theorem C29_request_chunked {max : Nat} (hmax : 0 < max) {m0 sl m u v : Bytes} {
     (feedAll (init .req m0 max) ps).core.parms = updParms (chunksParms (some []) ks) pm0 ∧
     (feedAll (init .req m0 max) ps).core.trails = (if Tr = [] then none else some Tr) := by
   rw [request_chunked_any_split hmax w hch ks hks ll pm0 hll hlls hl0 ts Tr hts hTr rest ps hps]
-  simp [chunkedDone, doneCore, reqHeadCore, reqAtHeadEnd, reqAfterStart, cStarted, cWait, core0, init]
+  simp [chunkedDone, doneCore, reqHeadCore, reqAtHeadEnd, reqAfterStart, cStarted, cWait, core0, init, trailsOf]
 
 /-- **Chunked response**. -/
 theorem C29_response_chunked {max : Nat} (hmax : 0 < max) {m0 sl reason : Bytes} {ver : Nat × Nat}
@@ -112,7 +112,7 @@ theorem C29_response_chunked {max : Nat} (hmax : 0 < max) {m0 sl reason : Bytes}
     (feedAll (init .rsp m0 max) ps).core.parms = updParms (chunksParms (some []) ks) pm0 ∧
     (feedAll (init .rsp m0 max) ps).core.trails = (if Tr = [] then none else some Tr) := by
   rw [response_chunked_any_split hmax w hch ks hks ll pm0 hll hlls hl0 ts Tr hts hTr rest ps hps]
-  simp [chunkedDone, doneCore, rspHeadCore', rspHeadCore, rspAtHeadEnd, rspAfterStart, cStarted, cWait, core0, init]
+  simp [chunkedDone, doneCore, rspHeadCore', rspHeadCore, rspAtHeadEnd, rspAfterStart, cStarted, cWait, core0, init, trailsOf]
 
 /-! ## read until close -/
 
